@@ -489,7 +489,7 @@ func sleepFunc(c ugo.Call) (ugo.Object, error) {
 		}
 		dur -= 10 * time.Millisecond
 		time.Sleep(10 * time.Millisecond)
-		if c.VM().Aborted() {
+		if vm := c.VM(); vm != nil && vm.Aborted() {
 			return ugo.Undefined, ugo.ErrVMAborted
 		}
 	}
